@@ -24,7 +24,7 @@ TRIED_CAP = 256 * 64
 def runs(tier, seed):
     if tier == "thorough":
         return [Run("addrman", cases=50000, params={"ops": 500}, timeout=3600)]
-    return [Run("addrman", cases=480, params={"ops": 400}, timeout=900)]
+    return [Run("addrman", cases=400, params={"ops": 300}, timeout=900)]
 
 
 def _check_raw(raw, st, case, where):
